@@ -670,14 +670,15 @@ func replay(path string) {
 		os.Exit(3)
 	}
 	var probe struct {
-		E2E   *E2E       `json:"e2e"`
-		DScr  *string    `json:"delsig_script"`
-		DSig  *string    `json:"delsig_sig"`
-		Multi []*Multi   `json:"multi"`
-		Group []*Case    `json:"group"`
-		Life  *Life      `json:"life"`
-		LifeM *LifeM     `json:"lifemulti"`
-		Node  *NodeBlock `json:"node"`
+		E2E    *E2E        `json:"e2e"`
+		DScr   *string     `json:"delsig_script"`
+		DSig   *string     `json:"delsig_sig"`
+		Multi  []*Multi    `json:"multi"`
+		Group  []*Case     `json:"group"`
+		Life   *Life       `json:"life"`
+		LifeM  *LifeM      `json:"lifemulti"`
+		Node   *NodeBlock  `json:"node"`
+		Caller *CallerHist `json:"caller"`
 	}
 	if json.Unmarshal(doc.Replay, &probe) == nil && probe.E2E != nil {
 		runE2E(probe.E2E)
@@ -694,6 +695,10 @@ func replay(path string) {
 	}
 	if probe.Node != nil {
 		runNode(probe.Node, 200)
+		return
+	}
+	if probe.Caller != nil {
+		runCallerHist(probe.Caller)
 		return
 	}
 	if json.Unmarshal(doc.Replay, &probe) == nil && probe.Life != nil {
@@ -733,7 +738,7 @@ func main() {
 	defer o.Close()
 	r.Assume = []string{
 		"SHA-256 is modelled, not verified (theorems hold for every hash function; the oracle's SHA-256 is compared with crypto/sha256 through every digest)",
-		"Spent_outputs has one entry per input and no nil element (every caller in /repo allocates it that way; a nil element is a nil dereference inside TaprootSigHash and is not modelled)",
+		"Spent_outputs has one entry per input, and no entry that a request reads is nil at the moment the request runs. A caller that fills the slice entry by entry is modelled (Model.SigHashCaller: a request sees the stored prefix, a nil entry is the panic the code shows, with tapSingleHashes already published) and the theorems say which interleavings of stores and requests are sound; that the node's caller keeps to them (Chain.commitTxs starts its workers after the collecting loop) is not derived from the source here (C11's source fact spawnAfterComplete does that) but tested: whole blocks through Chain.ProcessBlockTransactions in the child process. The callers in client/txpool and client/usif/webui (sequential: all outputs first, then the inputs one after the other) are not driven",
 		"tx.AllocVerVars() was called before the first digest request and the caller installed the spent outputs of this transaction (a nil TxVerVars - legacy digest unaffected, nil dereference on hashLock in WitnessSigHash / TaprootSigHash - is part of the life-cycle model and compared model-vs-code in the histories over several objects only)",
 		"AllocVerVars / Clean are not called concurrently with a digest request on the same transaction object (no caller in /repo does); the histories over several transaction objects (AllocVerVars, requests, Clean, interleaved) are sequential",
 		"external expectations exist for the legacy algorithm (Core's sighash.json, 500 vectors) and for BIP143 (corpus/C02/bip143_external.json: the signed BIP143 example transactions of /repo/lib/test/tx_valid.json whose authors' signatures must verify over the digest of code = reference = Lean Spec, two sighash values stated in that file, and the sighash values of the BIP143 text recalled offline and kept only because code, reference and Spec reproduce them). For BIP341 NO external vectors are available offline (the wallet-test-vectors are not in /repo; lib/test/bip341_script_tests.json is empty): there the Go reference ref.go and the Lean Spec - same author - are the only expectations, so a misreading of BIP341 shared by both is noticed only where gocoin disagrees",
@@ -807,6 +812,9 @@ func main() {
 	nodeStreams(g)
 	lap("4c2-blocks-through-commitTxs")
 	secs["4c2-of-which-in-the-node"] = float64(int(nodeChildSecs*10)) / 10
+	// 4c''. the same caller, one schedule at a time: Spent_outputs filled entry by entry between digest requests
+	callerStreams(g)
+	lap("4c3-caller-histories")
 	// 4d. histories over several transaction objects: AllocVerVars / digest requests or whole spends / Clean, interleaved
 	lifeStreams(g)
 	lap("4d-lifecycle-across-objects")
@@ -820,8 +828,8 @@ func main() {
 	r.Extra["seconds_by_stream"] = secs
 	r.Extra["oracle_requests"] = o.N
 	r.Extra["parallel_child_processes_started"] = parChildrenStarted
-	r.Finish("corpus (sighash.json, external BIP143 examples, boundary transactions, F1 witness), then random transactions (0..n inputs/outputs, CompactSize boundaries 252/253, random version/locktime/sequence) with a hash-type sweep per transaction (all 256 byte values in thorough, edge set + random in quick, 4-byte types for legacy/BIP143) for the three algorithms on ONE object, call-order permutations and parallel callers on one object and on several transaction objects at the same time; whole transactions with 1..8 really spent inputs out of 1..2500 (bare/P2SH/P2WSH/P2SH-P2WSH scripts and tapscripts with 1..4 CHECKSIG / CHECKMULTISIG / CHECKSIGADD checks, executed and unexecuted code separators between them, P2PKH/P2WPKH/key path) verified sequentially on one object and by one goroutine per input; histories over 2..5 transaction objects (AllocVerVars with Spent_outputs assigned or appended / digest requests or whole spends / Clean / re-allocation, interleaved; the real code runs a whole history in one goroutine without I/O in between); a case is distinct by (algorithm, input, hash type, hash of transaction+script) and non-trivial when the input index is in range",
-		"Every digest of the real code is compared with an independent reference (ref.go) and with the Lean model; the model's preimage with the reference preimage; results on a shared object with results on a fresh object; undefined taproot cases are attacked with a real BIP340 signature over the digest handed out; end-to-end spends (P2PKH/bare with code separators and embedded signatures - including pre-BIP66 spends whose script code embeds its own lax-DER padded signature as a push of 75/76/77/…/255/256 bytes -, P2WPKH/P2WSH, taproot key and script path with annex) are signed by the independent signer over the reference digest and must verify, and must not verify over any other digest; the real delSig (verif hook) is compared with the reference FindAndDelete and the model at every push-opcode boundary; scripts with several signature checks are signed per check with the script code / separator position of THAT check (and, on purpose, with another check's) and must verify exactly when every signature is over its own reference digest; in histories over several transaction objects every digest / verdict must equal the one of a fresh object of the same transaction and the reference, and the Lean life-cycle model (lifeStep) is run through the same history; concurrent callers (several on one transaction object; several transaction objects at once; one goroutine per spent input through script.VerifyTxScript, fresh object per round, three start disciplines) run in a child process so that a crash, a hang, a wrong digest or a wrong verdict under concurrency is a reported failure with the transactions and call lists at hand.")
+	r.Finish("corpus (sighash.json, external BIP143 examples, boundary transactions, F1 witness), then random transactions (0..n inputs/outputs, CompactSize boundaries 252/253, random version/locktime/sequence) with a hash-type sweep per transaction (all 256 byte values in thorough, edge set + random in quick, 4-byte types for legacy/BIP143) for the three algorithms on ONE object, call-order permutations and parallel callers on one object and on several transaction objects at the same time; whole transactions with 1..8 really spent inputs out of 1..2500 (bare/P2SH/P2WSH/P2SH-P2WSH scripts and tapscripts with 1..4 CHECKSIG / CHECKMULTISIG / CHECKSIGADD checks, executed and unexecuted code separators between them, P2PKH/P2WPKH/key path) verified sequentially on one object and by one goroutine per input; whole blocks (1..3 transactions after a coinbase, 2..2500 inputs, every input verifiable: signed spends of all kinds next to anyone-can-spend inputs, or every input signed; funded by UTXO records of 1..64 outputs or by outputs of an earlier transaction of the block; one block in four with one signature over another digest) through the node's own caller Chain.ProcessBlockTransactions, 12..24 rounds on fresh transaction objects with three start disciplines of the node's workers; interleavings of storing the next spent output and digest requests on one object (the code's order, overlapping but safe, arbitrary); histories over 2..5 transaction objects (AllocVerVars with Spent_outputs assigned or appended / digest requests or whole spends / Clean / re-allocation, interleaved; the real code runs a whole history in one goroutine without I/O in between); a case is distinct by (algorithm, input, hash type, hash of transaction+script) and non-trivial when the input index is in range",
+		"Every digest of the real code is compared with an independent reference (ref.go) and with the Lean model; the model's preimage with the reference preimage; results on a shared object with results on a fresh object; undefined taproot cases are attacked with a real BIP340 signature over the digest handed out; end-to-end spends (P2PKH/bare with code separators and embedded signatures - including pre-BIP66 spends whose script code embeds its own lax-DER padded signature as a push of 75/76/77/…/255/256 bytes -, P2WPKH/P2WSH, taproot key and script path with annex) are signed by the independent signer over the reference digest and must verify, and must not verify over any other digest; the real delSig (verif hook) is compared with the reference FindAndDelete and the model at every push-opcode boundary; scripts with several signature checks are signed per check with the script code / separator position of THAT check (and, on purpose, with another check's) and must verify exactly when every signature is over its own reference digest; in histories over several transaction objects every digest / verdict must equal the one of a fresh object of the same transaction and the reference, and the Lean life-cycle model (lifeStep) is run through the same history; a block handed to Chain.ProcessBlockTransactions must be accepted exactly when every signature is over its own reference digest (else rejected for its scripts), and every spend must verify again on the transaction objects the node left behind; on one object whose Spent_outputs is filled entry by entry the model answers every request as the code does (panic on a nil entry, later answers from the half-filled cache included) and, as long as every request read stored entries only, each result equals the fresh-object result and the reference; concurrent callers (several on one transaction object; several transaction objects at once; one goroutine per spent input through script.VerifyTxScript, fresh object per round, three start disciplines) run in a child process so that a crash, a hang, a wrong digest or a wrong verdict under concurrency is a reported failure with the transactions and call lists at hand.")
 }
 
 func mustBigHex(s string) []byte { return unhx(s) }
